@@ -157,3 +157,32 @@ package cache
 //@   trusted
 //@   implementations 1
 //@   pure
+
+// ForEach, scan phase: a bucket key the item type recognises (IdFromKey) whose id is not cached
+// is read through; what is cached already is never replaced (the cache wins over the bucket).
+//@ func (*ItemCache).ForEach$1
+//@   property C04 C08
+//@   invariant ic.items != nil
+//@   invariant forallv(k K, contains(ic.items, k) ==> ic.items[k] != nil)
+//@   modifies ic.items
+//@   ensures result == nil && callres(IdFromKey, 1, 1) ==> contains(ic.items, callres(IdFromKey, 1, 0))
+//@   ensures forallv(k K, old(contains(ic.items, k)) ==> contains(ic.items, k) && ic.items[k] == old(ic.items[k]))
+//@   ensures ncalls(IdFromKey) == 1 && callarg(IdFromKey, 1, 1) == key
+
+// ForEach, visiting phase: fn is handed exactly the live entries of the cache map - every entry
+// that is not a tombstone, with its cached value, and no tombstone; after a complete run
+// everything the bucket holds has been merged into the cache.
+//@ func (*ItemCache).ForEach
+//@   property C04 C08
+//@   requires unheld(ic.itemsMu) && ic.items != nil
+//@   requires forallv(k K, contains(ic.items, k) ==> ic.items[k] != nil)
+//@   callback fn requires contains(ic.items, arg0) && !ic.items[arg0].IsDeleted && arg1 == ic.items[arg0].value
+//@   callback fn ensures true
+//@   ensures unheld(ic.itemsMu)
+//@   ensures result == nil ==> ic.isAllInCache
+//@   ensures result == nil ==> forallv(k K, contains(ic.items, k) && !ic.items[k].IsDeleted ==> calledwith(fn, k))
+//@   ensures forallv(k K, calledwith(fn, k) ==> contains(ic.items, k) && !ic.items[k].IsDeleted)
+//@   loop 1 invariant held(ic.itemsMu) && ic.items != nil
+//@   loop 1 invariant forallv(k K, contains(ic.items, k) ==> ic.items[k] != nil)
+//@   loop 1 invariant forallv(k K, contains(ic.items, k) && visited(k) && !ic.items[k].IsDeleted ==> calledwith(fn, k))
+//@   loop 1 invariant forallv(k K, calledwith(fn, k) ==> contains(ic.items, k) && !ic.items[k].IsDeleted)
